@@ -43,6 +43,8 @@ ENV.pop("RUSTFLAGS", None)  # mc/.cargo/config.toml sets --cfg coap_lite_verif
 CONFIGS = {
     "oc": dict(args=["--profile", "oc"], bin="target/oc/coapmc"),
     "rel": dict(args=["--profile", "rel"], bin="target/rel/coapmc"),
+    # unoptimised, every check on; runs the input-size families of C02/C03 only, single-threaded with case tracing
+    "dev0": dict(args=["--profile", "dev0"], bin="target/dev0/coapmc", env_run={"VERIF_TRACE_CASES": "1"}),
     "nostd": dict(
         args=["--profile", "oc", "--no-default-features", "--target-dir", "target-nostd"],
         bin="target-nostd/oc/coapmc",
@@ -92,14 +94,14 @@ PROPS = {
         "byte x every extended delta/length value), G3 (every prefix and single-byte substitution of a corpus); every accepted "
         "input is re-encoded without limit and compared byte for byte. distinct+non-trivial = distinct (outcome class x option "
         "count x token length x payload shape) buckets among accepted inputs.",
-        ["oc", "rel"], ["oc", "rel", "nostd"],
+        ["oc", "rel", "dev0"], ["oc", "rel", "nostd", "dev0"],
     ),
     "C03": P(
         "exploration",
         "Same generators G1-G3; every input is parsed under panic capture and compared with the three-valued RFC 7252 reference "
         "parser (must-accept with fields / must-reject / either). distinct+non-trivial = distinct (verdict x reason or structural "
         "shape) buckets.",
-        ["oc", "rel"], ["oc", "rel", "nostd"],
+        ["oc", "rel", "dev0"], ["oc", "rel", "nostd", "dev0"],
     ),
     "C04": P(
         "exploration",
@@ -321,6 +323,7 @@ def run_config(pid, cfg, tier, seed, extra=None):
         env["MIRIFLAGS"] = "-Zmiri-disable-isolation -Zmiri-ignore-leaks"
     if extra:
         cmd += extra
+    env.update(CONFIGS[cfg].get("env_run", {}))
     if cfg == "asan":
         env["ASAN_OPTIONS"] = "detect_leaks=0:abort_on_error=0:exitcode=66:allocator_may_return_null=1"
     t0 = time.time()
@@ -337,6 +340,14 @@ def run_config(pid, cfg, tier, seed, extra=None):
             signature=f"{pid}/non-termination", what=f"a subject call made no progress for 20 s in {j.get('stalled_case')}",
             family=str(j.get("stalled_case", "?")).split(":")[0], index=None, history=None,
             case=dict(stalled_case=j.get("stalled_case")), config=cfg))
+        return res
+    if "has overflowed its stack" in r.stderr:
+        case = next((l[len("CASE "):].strip() for l in reversed(r.stderr.splitlines()) if l.startswith("CASE ")), None)
+        fam, idx = (case.rsplit(":", 1) + [None])[:2] if case else ("?", None)
+        res["synthetic"].append(dict(
+            signature=f"{pid}/stack-overflow", what=f"the process overflowed its stack while executing case {case} (configuration {cfg})",
+            family=fam, index=int(idx) if idx and idx.isdigit() else None, history=None,
+            case=dict(stderr_tail=r.stderr[-600:]), config=cfg))
         return res
     if "NON-UNWINDING-PANIC" in r.stderr:
         msg = next((l for l in r.stderr.splitlines() if l.startswith("NON-UNWINDING-PANIC")), "")[len("NON-UNWINDING-PANIC "):]
